@@ -180,12 +180,16 @@ MANIFEST = {
     "design_ref": "DESIGN.md §5 C10",
     "technique": "Lean 4 invariants of the engine model (constant inference of opStep, gradient map keys are non-constant reached "
                  "tensors) + correspondence on programs with random flag assignments + array-twin and exact-derivative oracles",
-    "text": "Proved on the engine model for all heaps/programs: the result flag of an op is the passed flag if any, else 'all inputs "
-            "constant' (op_constant_rule); the gradient map built by backward only ever has keys that are non-constant tensors "
-            "reached from L (constants_never_get_grad, grads_only_on_reached_tensors); backward on a constant tensor only clears "
-            "the graph. The model is run against MyGrad on programs with random flag assignments; the oracle checks the rule after "
-            "every statement, that no constant has a .grad, the exact derivative, and that replacing constant tensors by ndarrays "
-            "leaves all other gradients identical; the dtype gate is enumerated over all admitted dtypes.",
+    "text": "Proved on the engine model for all heaps/programs: the flag of an op's result is the flag the caller "
+            "passes, else 'every input (tensors and wrapped ndarrays/scalars) is constant' (op_constant_rule, "
+            "opStep_result_flag, wrapped_literals_are_constant); whatever the back-propagation loop does — to "
+            "completion or up to an error — no constant tensor becomes a key of the gradient map "
+            "(constants_never_get_grad) and every key is the terminal tensor or a non-constant input of a visited "
+            "op (grads_only_on_reached_tensors); backward on a constant tensor only clears the graph "
+            "(backward_on_constant_only_clears). The model is run against MyGrad on programs with random flag "
+            "assignments; the oracle checks the rule after every statement, that no constant has a .grad, the "
+            "exact derivative, and that replacing constant tensors by ndarrays leaves all other gradients "
+            "identical; the dtype gate is enumerated over all admitted dtypes.",
     "note": "Trusted: Lean kernel, standard axioms, correspondence harness. In-place targets keeping their flag is checked by the "
             "oracle and the correspondence, proved only for base targets.",
 }
